@@ -277,6 +277,8 @@ def run(run, ix, tier):
     check_asymptotic_thresholds(run, ix)
     check_divergence_exits(run, ix)
     check_gamma3_reentry(run, ix)
+    check_break_escalation(run, ix)
+    check_agm_iteration(run, ix)
     # ---- T-R5 / T-R6: iteration and precision caps --------------------------------
     run.rule('T-R5', floor=18, desc='loops that rely on a cap keep it inside the loop')
     run.rule('T-R6', floor=18, desc='the cap comparison is not made infeasible by a clamp')
@@ -648,3 +650,113 @@ def check_asymptotic_thresholds(run, ix):
                     raise AnalysisError('%s: no precision-dependent threshold found in front of %s' % (f.name, c.func.id))
     if nsites < 4:
         raise AnalysisError('asymptotic series call sites vanished (%d)' % nsites)
+
+
+# --------------------------------------------------------------------------- T-R11
+BREAK_ESCALATION = (('mpmath/ctx_base.py', 'StandardBaseContext.sum_accurately'),
+                    ('mpmath/ctx_base.py', 'StandardBaseContext.mul_accurately'))
+
+
+def check_break_escalation(run, ix):
+    """T-R11.  sum_accurately / mul_accurately re-evaluate their terms at a working precision that grows by the
+    observed cancellation until the cancellation is covered.  When the sum is exactly zero (the product exactly
+    one) the cancellation is +inf on every round: the loop ends only if one of its exits is a CAP -- a comparison
+    `escalated quantity > bound` whose bound is not recomputed inside the loop (`cancellation < extraprec` is not
+    one: its other side is recomputed).  Also: every name the loop reads after the term loop is bound on every
+    path through it (a sum of all-zero terms skipped the only assignment of `sum_mag`: UnboundLocalError)."""
+    run.rule('T-R11', floor=4, desc='break-exit precision escalation has a cap and reads only bound names')
+    for rel, qn in BREAK_ESCALATION:
+        f = ix.func(rel, qn)
+        loops = [x for x in _walk_own(f.node) if isinstance(x, ast.While)
+                 and isinstance(x.test, ast.Constant) and bool(x.test.value)]
+        if not loops:
+            raise AnalysisError('%s: escalation loop not found' % qn)
+        loop = loops[0]
+        changed = assigned_in(loop)
+        esc = {t for t in ('extraprec', 'ctx.prec') if t in changed}
+        if not esc:
+            raise AnalysisError('%s: no escalated quantity found' % qn)
+        cap = None
+        for x in own_nodes(loop):
+            if not isinstance(x, (ast.Break, ast.Return, ast.Raise)):
+                continue
+            p = x._parent
+            while not isinstance(p, (ast.While, ast.For)):
+                p = p._parent
+            if p is not loop:
+                continue
+            for c in guard_chain(x, loop):
+                for cmp_ in ast.walk(c):
+                    if isinstance(cmp_, ast.Compare) and len(cmp_.ops) == 1 and \
+                            isinstance(cmp_.ops[0], (ast.Gt, ast.GtE, ast.Lt, ast.LtE)):
+                        big, small = cmp_.left, cmp_.comparators[0]
+                        if isinstance(cmp_.ops[0], (ast.Lt, ast.LtE)):
+                            big, small = small, big
+                        bn = {norm(y) for y in ast.walk(big) if isinstance(y, (ast.Name, ast.Attribute))}
+                        sn = {norm(y) for y in ast.walk(small) if isinstance(y, (ast.Name, ast.Attribute))}
+                        if bn & esc and not (sn & changed):
+                            cap = cmp_
+        if cap is not None:
+            run.ok('T-R11', '%s: the escalation is capped by `%s`' % (qn.split('.')[-1], norm(cap)))
+        else:
+            run.fail(Finding('T-R11', rel, qn, norm(loop, 60), 'the working precision grows by the observed '
+                             'cancellation on every pass and no exit compares it with a bound that stays fixed: for '
+                             'a sum that is exactly zero (a product that is exactly one, qp(2, 1, 2)) the '
+                             'cancellation is +inf forever and the precision doubles until an overflow',
+                             line=loop.lineno))
+        # names read after the inner term loop must be assigned before it or unconditionally inside it
+        inner = [x for x in loop.body if isinstance(x, ast.For)]
+        if not inner:
+            raise AnalysisError('%s: term loop not found' % qn)
+        i = loop.body.index(inner[0])
+        pre = set()
+        for st in loop.body[:i]:
+            for y in ast.walk(st):
+                if isinstance(y, ast.Name) and isinstance(y.ctx, ast.Store):
+                    pre.add(y.id)
+        uncond = {y.id for st in inner[0].body if isinstance(st, (ast.Assign, ast.AugAssign))
+                  for y in ast.walk(st) if isinstance(y, ast.Name) and isinstance(y.ctx, ast.Store)}
+        cond = {y.id for st in inner[0].body if isinstance(st, ast.If) for y in ast.walk(st)
+                if isinstance(y, ast.Name) and isinstance(y.ctx, ast.Store)}
+        params = set(f.params)
+        outer = {y.id for st in f.node.body for y in ast.walk(st) if isinstance(y, ast.Name)
+                 and isinstance(y.ctx, ast.Store) and st is not loop and not any(st is z for z in ast.walk(loop))}
+        bad = []
+        for st in loop.body[i + 1:]:
+            for y in ast.walk(st):
+                if isinstance(y, ast.Name) and isinstance(y.ctx, ast.Load) and y.id in cond and \
+                        y.id not in pre and y.id not in params:
+                    bad.append(y)
+        if bad:
+            run.fail(Finding('T-R11', rel, qn, norm(bad[0]._parent, 60) if hasattr(bad[0], '_parent') else bad[0].id,
+                             '`%s` is read after the term loop but assigned only under a condition inside it: when no '
+                             'term satisfies the condition (all terms zero: ellipe(pi, m)) the call ends in '
+                             'UnboundLocalError' % bad[0].id, line=bad[0].lineno))
+        else:
+            run.ok('T-R11', '%s: every name read after the term loop is bound before it' % qn.split('.')[-1])
+
+
+# --------------------------------------------------------------------------- T-R12
+def check_agm_iteration(run, ix):
+    """T-R12.  The complex AGM iteration stops when |a - b| is small relative to |a|.  With the principal square
+    root, a pair (a, a) with Re a < 0 becomes (a, -a), then (0, .), and from then on one member is zero and the other
+    halves forever (|a - b| = |a|): the loop must either choose the square root next to the arithmetic mean or test
+    for a zero / opposite pair INSIDE the loop."""
+    run.rule('T-R12', floor=1, desc='the complex AGM loop cannot reach the halving fixed point (0, x)')
+    f = ix.func('mpmath/libmp/libhyper.py', 'mpc_agm')
+    loops = [x for x in _walk_own(f.node) if isinstance(x, ast.While)]
+    if not loops:
+        raise AnalysisError('mpc_agm: loop not found')
+    loop = loops[0]
+    inside_zero = any(isinstance(x, ast.If) and 'mpc_zero' in norm(x.test) and
+                      any(isinstance(y, ast.Return) for y in ast.walk(x)) for x in own_nodes(loop))
+    closer = any(isinstance(x, ast.If) and isinstance(x.test, ast.Call) and norm(x.test.func) in ('mpf_gt', 'mpf_lt', 'mpf_ge', 'mpf_le')
+                 and 'mpc_sub' in norm(x.test, 300) and 'mpc_add' in norm(x.test, 300)
+                 and any(isinstance(y, ast.Call) and norm(y.func) == 'mpc_neg' for y in ast.walk(x)) for x in own_nodes(loop))
+    if inside_zero or closer:
+        run.ok('T-R12', 'mpc_agm: %s' % ('square root chosen next to the mean' if closer else 'zero pair tested inside the loop'))
+    else:
+        run.fail(Finding('T-R12', 'mpmath/libmp/libhyper.py', 'mpc_agm', norm(loop, 60),
+                         'the zero / opposite-pair guards are tested only before the loop and the principal square '
+                         'root is taken at every step: agm(-1, -1) goes (-1, 1), (0, i), (i/2, 0), (i/4, 0), ... and '
+                         'never meets |a - b| < eps |a|', line=loop.lineno))
